@@ -83,6 +83,15 @@ pub fn harnesses() -> Vec<Harness> {
             },
         },
         Harness {
+            name: "timer/drop-after-two-polls",
+            threads: 3,
+            what: "sleep(10ns) polled twice with a counting waker (two heap entries with the same id), dropped; then block_on(sleep(20ns)): the counting waker is never woken after the timer thread dequeued the Cancel",
+            build: |cfg| {
+                let ticks = cfg.ticks.clone();
+                Box::new(move || drop_after_polls(&ticks, 2))
+            },
+        },
+        Harness {
             name: "timer/repoll-new-waker",
             threads: 3,
             what: "sleep(10ns) polled with waker 1, re-polled with waker 2; waker 2 is woken and the sleep is then ready",
@@ -263,6 +272,12 @@ fn drop_before_poll(ticks: &[u64]) {
 }
 
 fn drop_after_poll(ticks: &[u64]) {
+    drop_after_polls(ticks, 1)
+}
+
+/// `polls` Pending polls (each sends a Wake with the same id to the timer thread), then the drop (one Cancel): the Cancel
+/// must remove every entry of that id (added after seeded change C42-1, whose cancel fast path removed only one).
+fn drop_after_polls(ticks: &[u64], polls: usize) {
     let env = Env::start(ticks);
     let driver = TimerDriver::new(); // creates channel 0: the timer thread's message queue
     let h = driver.handle();
@@ -272,11 +287,25 @@ fn drop_after_poll(ticks: &[u64]) {
     });
     let mut s = Box::pin(h.sleep(ns(10)));
     let t0 = now_ns();
-    match poll_once(s.as_mut(), &cw) {
-        Poll::Pending => {} // message 1 on channel 0: Wake(id 0)
-        Poll::Ready(()) => panic!("ORACLE[sleep-completed-early]: sleep(10ns) ready at its first poll"),
+    let mut sent = 0usize;
+    for k in 0..polls {
+        match poll_once(s.as_mut(), &cw) {
+            Poll::Pending => sent += 1, // message on channel 0: Wake(id 0)
+            Poll::Ready(()) if k == 0 => panic!("ORACLE[sleep-completed-early]: sleep(10ns) ready at its first poll"),
+            Poll::Ready(()) => {
+                // the clock reached the deadline between two polls: nothing left to cancel
+                oracle!(now_ns() >= t0 + 10, "sleep-completed-early", "sleep(10ns) first polled at {} ns ready at {} ns", t0, now_ns());
+                drop(s);
+                drop(h);
+                drop(driver);
+                env.finish();
+                outcome(format!("timer/drop-after-{polls}-polls/ready-at-poll-{}", k + 1));
+                return;
+            }
+        }
     }
-    drop(s); // message 2 on channel 0: Cancel(id 0)
+    let cancel_index = sent + 1;
+    drop(s); // next message on channel 0: Cancel(id 0)
     // a longer sleep: when it has completed the timer thread has dequeued the Cancel and the clock has passed
     // the first sleep's deadline
     let took = block_on(Checked::new(h.sleep(ns(20)), 20, "after-polled-drop"));
@@ -286,9 +315,9 @@ fn drop_after_poll(ticks: &[u64]) {
     let log = cw.log();
     for (dequeued, now) in &log {
         oracle!(
-            *dequeued < 2,
+            (*dequeued as usize) < cancel_index,
             "woken-after-cancel",
-            "the waker of a dropped sleep was woken at {} ns after the timer thread had dequeued {} messages (Wake, Cancel)",
+            "the waker of a dropped sleep was woken at {} ns after the timer thread had dequeued {} messages (Wakes, Cancel)",
             now,
             dequeued
         );
@@ -300,7 +329,7 @@ fn drop_after_poll(ticks: &[u64]) {
             now
         );
     }
-    outcome(format!("timer/drop-after-poll/wakes-of-dropped-sleep={}/next-sleep-{took}ns", log.len()));
+    outcome(format!("timer/drop-after-{}/wakes-of-dropped-sleep={}/next-sleep-{took}ns", if polls == 1 { "poll".to_string() } else { format!("{polls}-polls") }, log.len()));
 }
 
 fn repoll_new_waker(ticks: &[u64]) {
